@@ -127,6 +127,25 @@ namespace vt
         friend bool operator<=(const SW& a, const SW& b) { return a.id <= b.id; }
         friend bool operator>=(const SW& a, const SW& b) { return a.id >= b.id; }
     };
+    // Trivially copy-assignable and trivially move-constructible, but with its OWN move assignment (which marks the source):
+    // the variant's move assignment between two such alternatives has to call it, not copy bytes.
+    struct MA2
+    {
+        uint64_t id;
+        bool moved_from;
+        explicit MA2(uint64_t v) : id(v), moved_from(false) {}
+        MA2(const MA2&) = default;
+        MA2(MA2&&) = default;
+        MA2& operator=(const MA2&) = default;
+        MA2& operator=(MA2&& o) noexcept { id = o.id; moved_from = false; o.moved_from = true; return *this; }
+        friend bool operator==(const MA2& a, const MA2& b) { return a.id == b.id; }
+        friend bool operator!=(const MA2& a, const MA2& b) { return a.id != b.id; }
+        friend bool operator<(const MA2& a, const MA2& b) { return a.id < b.id; }
+        friend bool operator>(const MA2& a, const MA2& b) { return a.id > b.id; }
+        friend bool operator<=(const MA2& a, const MA2& b) { return a.id <= b.id; }
+        friend bool operator>=(const MA2& a, const MA2& b) { return a.id >= b.id; }
+    };
+    static_assert(std::is_trivially_copy_assignable<MA2>::value && std::is_trivially_move_constructible<MA2>::value && !std::is_trivially_move_assignable<MA2>::value, "MA2's shape");
     static_assert(std::is_trivially_destructible<TT>::value, "TT must be trivially destructible");
     static_assert(std::is_trivially_copy_assignable<DA>::value && !std::is_trivially_copy_constructible<DA>::value, "DA: trivial assignment, non-trivial copy");
 }
@@ -949,6 +968,16 @@ namespace
         static const char* xname() { return "GR"; }
         static const char* yname() { return "DB"; }
     };
+    struct SetMoveAssign
+    {
+        using X = MA2; using Y = DB;
+        static constexpr bool tracked = false;
+        static X mkx(uint64_t id) { return X(id % 6); }
+        static uint64_t idx(const X& x) { return x.id; }
+        static const char* xname() { return "MA2"; }
+        static const char* yname() { return "DB"; }
+        static bool source_marked(const X& x) { return x.moved_from; }
+    };
     struct SetSwap
     {
         // every alternative moves without throwing (so variant::swap could believe it cannot throw) - only SW's own swap can
@@ -1158,10 +1187,21 @@ namespace
             catch (const Injected&) { threw = true; }
             if (threw) { settle_after_throw(t, pre, &pre_src); if (src != t) settle_source(src, pre_src); if (model[t].valueless) SIM_PROBE("valueless_by_assignment"); }
             else { if (src != t) { model[t] = pre_src; settle_source(src, pre_src); } }
+            if (move && !threw && src != t && !pre.valueless && !pre_src.valueless && pre.index == 1 && pre_src.index == 1)
+                same_index_move(src, std::is_same<S, SetMoveAssign>());
             if (const_rvalue && !threw) SIM_PROBE("assigned_from_const_rvalue_variant");
             if (!pre.valueless && !pre_src.valueless && pre.index != pre_src.index && src != t) SIM_PROBE("assignment_switching_alternative_defaulted_or_trivial_set");
             ++run.changing;
             check_all();
+        }
+        // move assignment between two variants holding the same alternative is that alternative's own move assignment
+        void same_index_move(int, std::false_type) {}
+        void same_index_move(int src, std::true_type)
+        {
+            Suspend s;
+            const X* x = xtl::get_if<1>(&slot[src].get());
+            if (!x || !S::source_marked(*x)) viol("model", "move-assign", "move assignment between two variants holding the same alternative did not run that alternative's move assignment (its source is not marked)");
+            SIM_PROBE("same_alternative_move_assignment_observed");
         }
         void op_conv_assign(const Step& st)
         {
@@ -1371,5 +1411,6 @@ namespace
     RegisterCfg reg_c("int_double_TT_trivially_destructible", gen, exec_small<SmallWorld<SetTrivial>>, 1, false);
     RegisterCfg reg_d("int_NA_DB_converting_assignment", gen_conv, exec_small<SmallWorld<SetConverting>>, 1, false);
     RegisterCfg reg_e("int_GR_DB_alternative_constructible_from_anything", gen, exec_small<SmallWorld<SetGreedy>>, 1, false);
+    RegisterCfg reg_g("int_MA2_DB_alternative_with_own_move_assignment", gen, exec_small<SmallWorld<SetMoveAssign>>, 1, false);
     RegisterCfg reg_f("int_SW_DBN_alternative_with_throwing_swap", gen, exec_small<SmallWorld<SetSwap>>, 1, false);
 }
